@@ -126,7 +126,7 @@ def probe_eigenpairs(inp: Dict[str, Any]) -> Dict[str, Any]:
         if (r2["cis_energies"][:, : inp["n_states"]] > E[:, : inp["n_states"]] + max(1e-7, 20 * tol)).any():
             bad.append("an RPA energy exceeds the corresponding CIS energy"); kinds.add("rpa_le_cis")
     return {"ok": not bad, "observed": bad[:6], "expected": "lowest eigenpairs of the dense response matrices", "predicate": "",
-            "fields": {"kinds": sorted(kinds), "xmethod": method, "method": inp.get("method", "AM1")}}
+            "fields": {"kinds": sorted(kinds), "xmethod": method, "method": inp.get("method", "AM1"), "molecule": "+".join(names), "n_states": inp["n_states"]}}
 
 
 def probe_guess_independence(inp: Dict[str, Any]) -> Dict[str, Any]:
@@ -176,6 +176,7 @@ def gen_cases(ctx: Ctx):
     cases.append(("eigenpairs", {"names": ["nh3"], "n_states": 5, "xmethod": "cis", "symmetric": NH3_SYM, "check_rpa_le_cis": True}))  # degenerate pairs
     cases.append(("eigenpairs", {"names": ["ch2o"], "n_states": 4, "xmethod": "rpa"}))
     cases.append(("eigenpairs", {"names": ["h2o", "h2o"], "n_states": 3, "xmethod": "cis", "method": "PM3"}))
+    cases.append(("eigenpairs", {"names": ["ch4"], "n_states": 4, "xmethod": "cis", "method": "AM1", "check_apb": False}))  # corpus: near-degenerate T2 set, 4th root skipped (known finding F20)
     pool = ["h2o", "nh3", "ch2o", "hcn", "hf", "h2s", "co", "ch4"]
     n = 14 if ctx.thorough else 3
     for i in range(n):
